@@ -52,8 +52,6 @@ def run_polychord(loglikelihood, nDims, nDerived, settings, prior=default_prior,
     nDims, nDerived = int(nDims), int(nDerived)
     os.makedirs(settings.base_dir, exist_ok=True)
     os.makedirs(settings.cluster_dir, exist_ok=True)
-    if settings.cluster_posteriors or settings.do_clustering:
-        pass
     call = {'sampler': 'polychord', 'kwargs': {k: v for k, v in vars(settings).items()}, 'ndim': nDims,
             'nderived': nDerived, 'loglike': loglikelihood, 'prior': prior, 'records': [], 'files': {}}
     RECORDER.calls.append(call)
